@@ -78,6 +78,8 @@ def reactor_spec(draw, geoms=("hex", "hex_corners_up", "cartesian"), max_rings=3
                 "zr": draw(st.floats(0.03, 0.12).map(lambda x: round(x, 4))),
                 "xs": [draw(st.sampled_from("ABCD")) for _ in range(nblocks)],
                 "thot": draw(st.floats(300.0, 650.0).map(lambda x: round(x, 1))),
+                "fuelMat": draw(st.sampled_from(["UZr", "UZr", "UO2", "UraniumOxide"])),
+                "td": draw(st.sampled_from([1.0, 0.95, 0.9, 0.85])),
                 "pinGrid": bool(allow_pin_grid and geom.startswith("hex") and draw(st.integers(0, 3)) == 0),
             }
         )
@@ -225,7 +227,7 @@ def render_block(spec, design, bi, blockname):
         return _comp(name, 8, **kw)
 
     if kind == "fuel":
-        L += circ("fuel", "UZr", 0.0, round(od * 0.8, 4), 25.0, thot)
+        L += circ("fuel", design.get("fuelMat", "UZr"), 0.0, round(od * 0.8, 4), 25.0, thot)
         L += circ("bond", "Sodium", "fuel.od", "clad.id", 450.0, 450.0, mlt=None if pin_grid else "fuel.mult")
         L += circ("clad", "HT9", round(od * 0.9, 4), od, 25.0, min(thot, 470.0), mlt=None if pin_grid else "fuel.mult")
     elif kind == "plenum":
@@ -272,7 +274,19 @@ def _pin_map(mult):
 def render(spec):
     if spec["geom"] == "thetarz":
         return render_rzt(spec)
-    L = ["blocks:"]
+    L = []
+    if any(d.get("fuelMat", "UZr") != "UZr" for d in spec["designs"]):
+        # oxide fuels need oxygen, which armi's default nuclide flags lack: spell the defaults out and add O
+        L.append("nuclide flags:")
+        burn = ["U234", "U235", "U236", "U238", "NP237", "NP238", "PU236", "PU238", "PU239", "PU240", "PU241", "PU242",
+                "AM241", "AM242", "AM243", "CM242", "CM243", "CM244", "CM245", "CM246", "CM247",
+                "LFP35", "LFP38", "LFP39", "LFP40", "LFP41", "DUMP1", "DUMP2"]
+        inert = ["B10", "B11", "ZR", "C", "SI", "V", "CR", "MN", "FE", "NI", "MO", "W", "NA", "HE", "O"]
+        for n in burn:
+            L.append("    %s: {burn: true, xs: true, expandTo: []}" % n)
+        for n in inert:
+            L.append("    %s: {burn: false, xs: true, expandTo: []}" % n)
+    L.append("blocks:")
     blocknames = {}
     for di, d in enumerate(spec["designs"]):
         for bi, kind in enumerate(d["kinds"]):
@@ -292,7 +306,10 @@ def render(spec):
         if any(k == "fuel" for k in d["kinds"]):
             L.append("        material modifications:")
             L.append("            U235_wt_frac: [%s]" % ", ".join(repr(e) if k == "fuel" else "''" for e, k in zip(d["enrich"], d["kinds"])))
-            L.append("            ZR_wt_frac: [%s]" % ", ".join(repr(d["zr"]) if k == "fuel" else "''" for k in d["kinds"]))
+            if d.get("fuelMat", "UZr") == "UZr":
+                L.append("            ZR_wt_frac: [%s]" % ", ".join(repr(d["zr"]) if k == "fuel" else "''" for k in d["kinds"]))
+            elif d.get("td", 1.0) != 1.0:
+                L.append("            TD_frac: [%s]" % ", ".join(repr(d["td"]) if k == "fuel" else "''" for k in d["kinds"]))
         L.append("        xs types: [%s]" % ", ".join(d["xs"]))
     L.append("systems:")
     L.append("    core:")
